@@ -5,6 +5,8 @@ CONSTANTS
   PA = 0
   HB = 0
   PB = 0
+  BCmds = {}
+  BObjs = {}
   LimPlan = 0
   LimR = 0
   SetR = 0
